@@ -23,7 +23,7 @@
   * The preconditions "C ⊆ T", "T ⊆ topo", "G[T] is a single district" are CHECKED by the routine itself (it raises
     otherwise), so `tian_sound` does not need them as hypotheses: every expression it returns is right.
 -/
-import Y0.Lemmas.TianIdentify
+import Y0.Lemmas.TianTotal
 
 namespace Y0
 open Tian TianSpec
@@ -65,6 +65,61 @@ theorem tian_sound (M : Scm) (G : MG Name) (hM : M.Compatible G) (hG : G.WF) (hr
   rw [← Scm.Q_perm M hpC]
   exact TianIdentify.identifyAux_sound hM hG hrank σ' topo htnd hord C _ T q hT
     (TianSound.probShape_congr hpT.symm hshape) (fun τ => by rw [hq τ, Scm.Q_perm M hpT]) e h σ
+
+/-- **C17, totality.**  Under the preconditions of Tian & Pearl's IDENTIFY — `C ⊆ T ⊆ topo`, `G[T]` a single
+district, `C` bidirected-connected in `G[C]`, `Q[T]` given as a Sum / Product / Fraction / Probability — the routine
+terminates with an expression or with FAIL (`none`): no exception, and the recursion (on a strictly smaller `T` at
+every step, `TianTotal.dedup_length_lt`) never exhausts its fuel `|T| + 1`. -/
+theorem tian_total (G : MG Name) (C T topo : List Name) (q : Expr)
+    (hCT : ∀ c ∈ C, c ∈ T) (hTt : ∀ t ∈ T, t ∈ topo) (hdist : (G.subgraph T).districts.length ≤ 1)
+    (hconn : ∀ c1 ∈ C, ∀ c2 ∈ C, (G.subgraph C).SameDistrict c1 c2)
+    (hq : isFracProdSum q = true ∨ isProb q = true) :
+    ∃ r : Option Expr, identify G C T q topo = .ok r :=
+  TianTotal.identifyAux_total G topo C hconn _ T q (Nat.lt_succ_self _) hCT hTt hdist hq
+
+/-- the validation errors are exactly the documented ones, in the documented order -/
+theorem tian_rejects_C_outside_T (G : MG Name) (C T topo : List Name) (q : Expr) (h : ¬ ∀ c ∈ C, c ∈ T) :
+    identify G C T q topo = .error (.invalidInput "KeyError") := by
+  have : subset' C T = false := by
+    apply Bool.eq_false_iff.mpr
+    exact fun hs => h (TianGraph.subset'_iff.mp hs)
+  simp [identify, identifyAux, this]
+
+theorem tian_rejects_T_outside_topo (G : MG Name) (C T topo : List Name) (q : Expr) (h1 : ∀ c ∈ C, c ∈ T)
+    (h : ¬ ∀ t ∈ T, t ∈ topo) : identify G C T q topo = .error (.invalidInput "KeyError") := by
+  have e1 : subset' C T = true := TianGraph.subset'_iff.mpr h1
+  have e2 : subset' T topo = false := by
+    apply Bool.eq_false_iff.mpr
+    exact fun hs => h (TianGraph.subset'_iff.mp hs)
+  simp [identify, identifyAux, e1, e2]
+
+theorem tian_rejects_several_districts (G : MG Name) (C T topo : List Name) (q : Expr) (h1 : ∀ c ∈ C, c ∈ T)
+    (h2 : ∀ t ∈ T, t ∈ topo) (h : (G.subgraph T).districts.length > 1) :
+    identify G C T q topo = .error (.invalidInput "TypeError") := by
+  have e1 : subset' C T = true := TianGraph.subset'_iff.mpr h1
+  have e2 : subset' T topo = true := TianGraph.subset'_iff.mpr h2
+  simp [identify, identifyAux, e1, e2, h]
+
+theorem tian_rejects_other_expressions (G : MG Name) (C T topo : List Name) (q : Expr) (h1 : ∀ c ∈ C, c ∈ T)
+    (h2 : ∀ t ∈ T, t ∈ topo) (h3 : (G.subgraph T).districts.length ≤ 1)
+    (h : isFracProdSum q = false ∧ isProb q = false) :
+    identify G C T q topo = .error (.invalidInput "TypeError") := by
+  have e1 : subset' C T = true := TianGraph.subset'_iff.mpr h1
+  have e2 : subset' T topo = true := TianGraph.subset'_iff.mpr h2
+  have e3 : ¬ (G.subgraph T).districts.length > 1 := by omega
+  simp [identify, identifyAux, e1, e2, e3, h.1, h.2]
+
+-- OPEN: `tian_sound` without the syntactic hypothesis `ProbShape`, with the semantic hypothesis quantified over all
+-- models instead:
+--   theorem tian_sound_semantic (G) (hG : G.WF) (hrank : G.Ranked) (topo) (htnd) (hord) (C T) (hCnd) (hTnd) (hT)
+--       (q : Expr) (σ' : Val)
+--       (hq : ∀ M : Scm, M.Compatible G → ∀ σ, den (M.env G) σ' q σ = M.Q T σ)
+--       (e : Expr) (h : identify G C T q topo = .ok (some e)) :
+--       ∀ M : Scm, M.Compatible G → ∀ σ, den (M.env G) σ' e σ = M.Q C σ
+-- It needs "a Probability that denotes Q[T] in EVERY compatible model has the shape P_w(T | Z)", which requires
+-- constructing separating models and is not mechanised.  For a single model the statement without `ProbShape` is
+-- false (a uniform model makes unrelated probabilities coincide with Q[T]), so `ProbShape` is not an artefact.
+-- `Sum` / `Product` / `Fraction` inputs are covered by `tian_sound` without any shape hypothesis.
 
 /-! ## 2. the c-factor routines -/
 
@@ -176,6 +231,15 @@ example : TopoOrdered g [0, 3, 1, 2] := by
     | [x0, x1, x2, x3], e => simp at e; obtain ⟨rfl, rfl, rfl, rfl, rfl⟩ := e; decide
     | _ :: _ :: _ :: _ :: _ :: _, e => simp at hl
   exact this l1 l2 e.symm a ha r hr
+
+/-- the hypotheses of `tian_total` hold for this input -/
+example : ∃ r, identify g [2] [1, 2, 3] (.prob none [pl 1, pl 2, pl 3] [pl 0]) [0, 3, 1, 2] = .ok r :=
+  tian_total g [2] [1, 2, 3] [0, 3, 1, 2] _ (by decide) (by decide) (by decide)
+    (by
+      intro c1 h1 c2 h2
+      rw [List.mem_singleton.mp h1, List.mem_singleton.mp h2]
+      exact .refl)
+    (Or.inr rfl)
 
 /-- Lemma 4 on `Σ_D P(A,B,D | Z)`: the product of ratios for the district `{B}` of `G[{A,B}]` -/
 example : (lemma4 [2] (.sum (.prob none [pl 1, pl 2, pl 3] [pl 0]) [pl 3]) [1, 2]).toOption.isSome = true := by decide
